@@ -116,7 +116,7 @@ fn parse_halfmove_clock(halfmove_clock: &str) -> u8 {
 <digit19> ::= '1' | '2' | '3' | '4' | '5' | '6' | '7' | '8' | '9'
 <digit>   ::= '0' | <digit19>
  */
-fn parse_fullmove_counter(fullmove_counter: &str) -> u8 {
+fn parse_fullmove_counter(fullmove_counter: &str) -> u32 {
     fullmove_counter.parse().expect("Failed to parse fullmove counter from FEN")
 }
 
